@@ -99,6 +99,10 @@ func c05(r *hx.Run) {
 		}
 		for _, f := range []int64{T - d - 1, T - d, T - d + 1, 1} {
 			wins = append(wins, win{f, 0})
+			// explicit anchorUntil with a window wider than / equal to / narrower than the default delta
+			for _, u := range []int64{T - 1, T, T + 1, T + 5, f + d, f + d + 1} {
+				wins = append(wins, win{f, u})
+			}
 		}
 		for _, typ := range []string{"update", "recover", "deactivate"} {
 			for _, w := range wins {
